@@ -24,7 +24,9 @@ def compose(rng, i, with_gene):
     sv = str(rng.randint(1, 3))
     # isoform records of UniProt carry no PE= / SV= fields: the gene name (or OX) is then the LAST field of the header
     tail = rng.random() < 0.75
-    h = f"{db}|{acc}|{entry} {desc} OS={org} OX={ox}" + (f" GN={gene}" if gene else "") + (f" PE={pe} SV={sv}" if tail else "")
+    if rng.random() < 0.05:
+        desc = ""           # an entry without a protein name: the identifier is followed directly by OS=
+    h = f"{db}|{acc}|{entry}" + (f" {desc}" if desc else "") + f" OS={org} OX={ox}" + (f" GN={gene}" if gene else "") + (f" PE={pe} SV={sv}" if tail else "")
     fields = {"id": f"{db}|{acc}|{entry}", "acc": acc, "entry": entry, "desc": desc, "org": org + " OX=" + ox, "gene": gene,
               "pe": int(pe) if tail else None}
     return h, fields
